@@ -55,11 +55,13 @@ inductive Hdr
   | hdr (name : List Byte) (size : Nat)
 
 /-- `TarInfo.frombuf`: the checks in the order of the code -/
-def classify (c : Codec) (buf : List Byte) : Hdr :=
+abbrev Dec := List Byte → Option (List Byte × Nat)
+
+def classify (dec : Dec) (buf : List Byte) : Hdr :=
   if buf.length = 0 then .empty
   else if buf.length ≠ 512 then .truncated
   else if buf.all (· == 0) then .eof
-  else match c.dec buf with
+  else match dec buf with
     | none => .invalid
     | some (n, s) => .hdr n s
 
@@ -71,23 +73,23 @@ deriving DecidableEq, Repr
 /-- iteration over the archive with extraction of every member's data: `next()` (seek to `offset` if needed, read a
     header block, `frombuf`; header problems end the iteration *silently* unless `offset == 0`), `_proc_builtin`
     (next offset), then the member's data through the looping read (short at EOF). Fuel: one unit per member. -/
-def readMembers (c : Codec) : Nat → Reader → Nat → List Member → Outcome
+def readMembers (dec : Dec) : Nat → Reader → Nat → List Member → Outcome
   | 0, _, _, acc => .ok acc
   | fuel + 1, s, offset, acc =>
       match s.seek offset with
       | none => .error
       | some s1 =>
           let hb := s1.read 512
-          match classify c hb.1 with
+          match classify dec hb.1 with
           | .hdr name size =>
               let d := hb.2.read size
-              readMembers c fuel d.2 (hb.2.pos + blockLen size) (acc ++ [{ name := name, data := d.1 }])
+              readMembers dec fuel d.2 (hb.2.pos + blockLen size) (acc ++ [{ name := name, data := d.1 }])
           | .eof => .ok acc
           | _ => if offset = 0 then .error else .ok acc
 
 /-- read a whole archive from an underlying stream with any chunking policy -/
-def readArchive (c : Codec) (r : Raw) : Outcome :=
-  readMembers c (r.data.length / 512 + 1) { raw := r, pos := 0 } 0 []
+def readArchive (dec : Dec) (r : Raw) : Outcome :=
+  readMembers dec (r.data.length / 512 + 1) { raw := r, pos := 0 } 0 []
 
 /-- `aiotarstream.write(src, dst, bufsize)` as used by `makefile` → `copyfileobj`:
     `while bufsize > 0: buf = await src.read(bufsize); bufsize -= len(buf)`. `none` = the loop does not end within `fuel` rounds. -/
